@@ -28,7 +28,7 @@ def run_parse_property(pid, tier, seed, sel, asserts, rule, outside, assumptions
     if defer is not None:
         for c in cases: c.want_witness = c in wit
         defer.extend(cases); return R
-    report.run_parse_cases(R, cases, witness_for=wit, timeout=timeout or (900 if tier == 'quick' else 3000), mem_gb=mem_gb or (10 if tier == 'quick' else 24))
+    report.run_parse_cases(R, cases, witness_for=wit, timeout=timeout or (1800 if tier == 'quick' else 3600), mem_gb=mem_gb or (12 if tier == 'quick' else 24))
     R.outside += [x for x in outside if x not in R.outside]; R.assumptions += [x for x in assumptions if x not in R.assumptions]
     if finish: return R.finish(rule)
     return R
@@ -37,5 +37,5 @@ STD_OUTSIDE = ['grammars outside the generated families', 'inputs longer than th
 STD_ASSUME = ['token-level custom lexer maps byte a+k to term k', 'program dimension is a generated finite family']
 
 def run_deferred(R, tier, cases, rule, timeout=None, mem_gb=None):
-    report.run_parse_cases(R, cases, witness_for=[c for c in cases if getattr(c, 'want_witness', False)], timeout=timeout or (900 if tier == 'quick' else 3000), mem_gb=mem_gb or (10 if tier == 'quick' else 24))
+    report.run_parse_cases(R, cases, witness_for=[c for c in cases if getattr(c, 'want_witness', False)], timeout=timeout or (1800 if tier == 'quick' else 3600), mem_gb=mem_gb or (12 if tier == 'quick' else 24))
     return R.finish(rule)
